@@ -55,6 +55,10 @@ def coq_str(s):
     return '[' + '; '.join(str(ord(c)) for c in s) + ']%N' if s else '(@nil N)'
 
 
+import threading as _threading
+_SCRATCH_LOCK = _threading.Lock()
+
+
 class Ctx:
     def __init__(self, prop, tier='quick', seed=0):
         self.prop, self.tier, self.seed = prop, tier, seed
@@ -75,9 +79,10 @@ class Ctx:
 
     # ---------------------------------------------------------------- scratch
     def mkscratch(self):
-        if not self.scratch:
-            base = os.environ.get('TMPDIR') or '/var/tmp'
-            self.scratch = tempfile.mkdtemp(prefix='mverif-%s-' % self.prop, dir=base)
+        with _SCRATCH_LOCK:      # called from worker threads too: exactly one directory per run
+            if not self.scratch:
+                base = os.environ.get('TMPDIR') or '/var/tmp'
+                self.scratch = tempfile.mkdtemp(prefix='mverif-%s-' % self.prop, dir=base)
         return self.scratch
 
     def cleanup(self):
